@@ -27,12 +27,12 @@ SCALE_LANE = "none beyond the batch-size parameters (extract_chans / extract_ban
 ASSUMPTIONS = [
     "integer-valued labelled input; selections/permutations/fills exact; decimation = floor(mean) at integer depths, float32 mean at 32 bit",
     "zero-DM removal compared within one quantisation level (1e-4 relative at 32 bit), only on cases whose float64 result stays inside the representable range",
-    "outputs restricted to those whose sample is a whole number of bytes; sub-banding DMs restricted to non-negative delay tables with maxdelay < nsamps",
+    "outputs restricted to those whose sample is a whole number of bytes; sub-banding DMs (one of them negative) with maxdelay < nsamps; negative tables are counted from the earliest channel",
     "extract_bands may return more files than nchans/chanpersub (statement does not fix the count): only the first nchans/chanpersub bands are required, every returned band is checked",
 ]
 REQUIRED_OUTCOMES = ["invert/ok", "mask/ok", "extract_samps/ok", "extract_chans/ok", "extract_bands/ok", "downsample/ok", "subband/ok", "zerodm/ok"]
 
-DMS = [0.0, 1.0, 3.0, 8.0]
+DMS = [0.0, 1.0, 3.0, 8.0, -3.0]
 
 
 def bounds(tier: str) -> dict:
@@ -226,8 +226,9 @@ def _expected(name, p, Y, nbits, C, delays):
     if name == "subband":
         dm, nsub = p
         d = delays[dm]
+        d = d - int(d.min())  # negative tables (negative DM) are counted from the earliest channel, as in streamed dedispersion (C06/C09)
         md = int(d.max())
-        if md >= n or d.min() < 0:
+        if md >= n:
             return None
         n_out = n - md
         Z = np.zeros((n_out, nsub))
@@ -266,7 +267,9 @@ def _run_transform(fil, name, p, g, st, ns, wd):
     if name == "extract_bands":
         return list(fil.extract_bands(p[0], p[1], p[2], outfile_base=base, batch_size=p[3], **rk))
     if name == "downsample":
-        return [fil.downsample(tfactor=p[0], ffactor=p[1], outfile_name=out, **rk)]
+        # a factor of 1 is left at its default, so that the documented defaults (tfactor=1, ffactor=1) are exercised too
+        fk = {k: v for k, v in (("tfactor", p[0]), ("ffactor", p[1])) if v != 1}
+        return [fil.downsample(outfile_name=out, **fk, **rk)]
     if name == "subband":
         return [fil.subband(p[0], p[1], outfile_name=out, **rk)]
     if name == "zerodm":
